@@ -729,7 +729,13 @@ impl Interp {
                     }
                 };
                 let (mut i, mut m, mut p, mut l) = (None, None, None, None);
-                match field % 8 {
+                let mut pool = None;
+                match field % 9 {
+                    8 => {
+                        // the owner points the engine at the other fee pool
+                        let other = if self.w.fee_pool == self.w.pools[0] { &self.w.pools[1] } else { &self.w.pools[0] };
+                        pool = Some(other.to_string());
+                    }
                     0 => i = Some(vals(*knob)),
                     1 => m = Some(vals(*knob)),
                     2 => p = Some(vals(*knob)),
@@ -750,7 +756,7 @@ impl Interp {
                     msg: eng::ExecuteMsg::UpdateConfig {
                         owner: None,
                         insurance_fund: None,
-                        fee_pool: None,
+                        fee_pool: pool,
                         initial_margin_ratio: i.map(u),
                         maintenance_margin_ratio: m.map(u),
                         partial_liquidation_ratio: p.map(u),
@@ -854,6 +860,31 @@ impl Interp {
                     },
                 },
             },
+            Op::Rewire { v, what } => {
+                let v = self.v_of(*v);
+                let cfg = self.w.vamm_config(v);
+                let (mut me, mut fu) = (None, None);
+                if what % 2 == 0 {
+                    fu = Some(if cfg.insurance_fund == self.w.fund { crate::world::RETIRED_FUND.to_string() } else { self.w.fund.to_string() });
+                } else {
+                    me = Some(if cfg.margin_engine == self.w.engine { crate::world::ENGINE_TYPO.to_string() } else { self.w.engine.to_string() });
+                }
+                Act::VammAdmin {
+                    v,
+                    sender: self.w.owner.clone(),
+                    msg: vamm::ExecuteMsg::UpdateConfig {
+                        base_asset_holding_cap: None,
+                        open_interest_notional_cap: None,
+                        toll_ratio: None,
+                        spread_ratio: None,
+                        fluctuation_limit_ratio: None,
+                        margin_engine: me,
+                        insurance_fund: fu,
+                        pricefeed: None,
+                        spot_price_twap_interval: None,
+                    },
+                }
+            }
             Op::Alias { kind, v, amt } => {
                 let v = self.v_of(*v);
                 let alias = format!("{}0", self.w.vamms[v]);
@@ -946,6 +977,8 @@ impl Interp {
             if r.ok {
                 if let eng::ExecuteMsg::SetPause { pause } = msg {
                     self.w.paused = pause;
+                } else if let eng::ExecuteMsg::UpdateConfig { fee_pool: Some(p), .. } = &msg {
+                    self.w.fee_pool = Addr::unchecked(p);
                 }
             }
             return r;
